@@ -1,1 +1,2 @@
+import RallyModel.Dbl
 import RallyModel.Versions
